@@ -215,6 +215,32 @@ impl World {
     true
   }
 
+  /// subscription i is a guard: its scope is left by a panic that is caught further up, i.e.
+  /// the guard is dropped by the unwinder
+  pub fn drop_guard_by_unwinding(&mut self, i: usize) -> bool {
+    let s = std::mem::replace(&mut self.subs[i], Sub::Gone);
+    match s {
+      Sub::LGuard(g) => {
+        let _ = std::panic::catch_unwind(std::panic::AssertUnwindSafe(move || {
+          let _scope = g;
+          panic!("harness: the guard's scope is left by a panic");
+        }));
+        true
+      }
+      Sub::TGuard(g) => {
+        let _ = std::panic::catch_unwind(std::panic::AssertUnwindSafe(move || {
+          let _scope = g;
+          panic!("harness: the guard's scope is left by a panic");
+        }));
+        true
+      }
+      o => {
+        self.subs[i] = o;
+        self.unsubscribe(i)
+      }
+    }
+  }
+
   /// turn subscription i into an `unsubscribe_when_dropped` guard
   pub fn guard(&mut self, i: usize) {
     let s = std::mem::replace(&mut self.subs[i], Sub::Gone);
